@@ -69,6 +69,7 @@ type Spec struct {
 	TrName        string `json:"trname,omitempty"`         // trailer field name (default X-Tr)
 	Multipart     bool   `json:"multipart,omitempty"`      // FCL only: a multipart/form-data body whose bytes after the closing boundary (epilogue, RFC 2046) fill it up to BodyLen
 	ChunkExt      bool   `json:"chunk_ext,omitempty"`      // chunked framings: every chunk-size line carries a chunk extension (RFC 7230 4.1.1: recipients ignore unknown ones)
+	Decline       bool   `json:"decline,omitempty"`        // Expect framings: carries X-Decline, which the harness engine's ContinueHandler refuses (417); the client sends the body anyway
 	TrUnannounced bool   `json:"tr_unannounced,omitempty"` // FChunkedTrailer without a Trailer header field: the section must be consumed, its delivery is not demanded
 }
 
@@ -81,6 +82,7 @@ type Expect struct {
 	Trailers    []httpref.Header
 	Expect100   bool
 	Close       bool // the connection must not serve anything after this request
+	Declined    bool // the server declines this request's Expect: 100-continue: no handler, a 4xx, and nothing served afterwards (the body the client sent anyway must not be read as a request)
 	InvalidName bool // the message contains a syntactically invalid field name: rejection (4xx+close) is an acceptable outcome
 }
 
@@ -164,6 +166,11 @@ func Build(s Spec) ([]byte, Expect) {
 			w.WriteString("Content-Type: multipart/form-data; boundary=xx\r\n")
 			ex.BodyOpaque = true
 		}
+	}
+	if s.Decline && (s.Framing == FCLExpect || s.Framing == FChunkedExpect) {
+		w.WriteString("X-Decline: 1\r\n")
+		ex.Custom = append(ex.Custom, httpref.Header{Name: "X-Decline", Value: "1"})
+		ex.Declined = true
 	}
 	ex.Body = body
 	// near-miss framing name placed BEFORE the real framing header
